@@ -309,9 +309,11 @@ impl Local {
         }
     }
     pub fn violation(&mut self, key: impl Into<String>, detail: Value) {
-        if self.violations.len() < 50 {
+        let key: String = key.into();
+        // keep a few cases per key, but never drop a key
+        if self.violations.len() < 20_000 && self.violations.iter().filter(|v| v.key == key).count() < 3 {
             self.violations.push(Violation {
-                key: key.into(),
+                key,
                 sub: self.sub.clone(),
                 ord: self.ord,
                 idx: self.idx,
@@ -373,6 +375,14 @@ impl Report {
     }
     pub fn cov(&self, k: &str, v: Value) {
         self.coverage_extra.lock().unwrap().insert(k.into(), v);
+    }
+    /// A violation of an oracle that spans several cases (sequence / aggregate
+    /// oracles). Replayed by re-running the whole check (ord 0).
+    pub fn violation_global(&self, key: &str, detail: Value) {
+        if self.one.is_some() {
+            return;
+        }
+        self.violations.lock().unwrap().push(Violation { key: key.into(), sub: "whole-run oracle".into(), ord: 0, idx: 0, detail });
     }
     pub fn add_extra(&self, k: &str, n: u64) {
         *self.extra.lock().unwrap().entry(k.into()).or_insert(0) += n;
